@@ -344,7 +344,7 @@ def check_mask(rng, n, ntomo, index_kind, inplace, single_mask, form):
         t = int(before["tomo_id"].iloc[i])
         if t not in listed:
             continue
-        v = [math.trunc(pos[i, a]) for a in range(3)]  # voxel the particle sits on
+        v = [math.floor(pos[i, a]) for a in range(3)]  # voxel the particle sits on
         mk = masks[t]
         if all(0 <= v[a] < mk.shape[a] for a in range(3)) and mk[v[0], v[1], v[2]] == 0:
             remove[i] = True
